@@ -62,6 +62,10 @@ pub(super) struct RenderTerminusContext<'ctx, 'tcx> {
 
     pub relative_import_path: String,
     pub module_name: String,
+
+    /// Opaque types whose constructor is being evaluated right now, outermost first: a constructor that
+    /// (transitively) needs an instance of its own type cannot be demonstrated.
+    pub constructing: Vec<String>,
 }
 
 impl MethodDependency {
@@ -403,6 +407,18 @@ impl RenderTerminusContext<'_, '_> {
             }
 
             if usable_constructor {
+                if self.constructing.contains(&type_name) {
+                    self.errors.push_error(format!(
+                        "The default constructor of {type_name} needs a {type_name} itself ({} -> {type_name}), \
+                        so no demo can construct it for the function {}. \
+                        Mark another constructor with #[diplomat::demo(default_constructor)], or the type as #[diplomat::demo(external)].",
+                        self.constructing.join(" -> "),
+                        node.method_js
+                    ));
+                    return format!("null /*The default constructor of {type_name} needs a {type_name} itself*/");
+                }
+                self.constructing.push(type_name.clone());
+
                 self.terminus_info
                     .imports
                     .insert(self.formatter.fmt_import_module(
@@ -430,6 +446,7 @@ impl RenderTerminusContext<'_, '_> {
                 );
 
                 self.evaluate_constructor(method, &mut child);
+                self.constructing.pop();
                 return child.variable_name;
             }
         }
